@@ -127,7 +127,7 @@ func cmdCheck(args []string) int {
 	}
 	for _, u := range units {
 		for _, o := range u.Obls {
-			if _, ok := kfByObl[o.ID]; ok {
+			if _, ok := matchKF(kfByObl, o.ID); ok {
 				o.Quick = true
 			}
 			if _, ok := claims.Unclaimed[o.ID]; ok && !*writeClaims {
@@ -151,6 +151,7 @@ func cmdCheck(args []string) int {
 	}
 	var viols []viol
 	var kfLines []string
+	kfFamily := map[string]int{}
 	nObl, nDis := 0, 0
 	perSolver := map[string]int{}
 	solverSecs := 0.0
@@ -179,8 +180,16 @@ func cmdCheck(args []string) int {
 				}
 				continue
 			}
-			if _, isKF := kfByObl[o.ID]; isKF {
-				k := kfByObl[o.ID]
+			if k, isKF := matchKF(kfByObl, o.ID); isKF {
+				if strings.Contains(k.Obligation, "**") {
+					// carve-out family: one line per listed finding
+					if o.Status != "unsat" {
+						kfFamily[k.Obligation]++
+					} else if _, seen := kfFamily[k.Obligation]; !seen {
+						kfFamily[k.Obligation] = 0
+					}
+					continue
+				}
 				if o.Status != "unsat" {
 					kfLines = append(kfLines, fmt.Sprintf("KNOWN-FINDING: property=%s %s: %s [%s]", *prop, k.KF, k.What, o.ID))
 				} else {
@@ -205,12 +214,27 @@ func cmdCheck(args []string) int {
 			viols = append(viols, viol{id: o.ID, why: "obligation not discharged: " + o.Status, o: o, u: u})
 		}
 	}
+	for pat, n := range kfFamily {
+		k := kfByObl[pat]
+		if n > 0 {
+			kfLines = append(kfLines, fmt.Sprintf("KNOWN-FINDING: property=%s %s: %s [%d obligations of %s]", *prop, k.KF, k.What, n, pat))
+		} else {
+			kfLines = append(kfLines, fmt.Sprintf("NOTE: known finding %s no longer fails (%s)", k.KF, pat))
+		}
+	}
+	sort.Strings(kfLines)
 	// claimed obligations that disappeared
 	if !*writeClaims {
+		// vacuity guard: obligations named by contract labels (post / inv / frame) must still be generated;
+		// call-site and safety obligations are keyed by call ordinals and legitimately come and go with edits
 		for _, id := range claims.Claimed {
-			if _, ok := seen[id]; !ok {
-				viols = append(viols, viol{id: id, why: "claimed obligation is no longer generated (contract unbound or code path removed)"})
+			if _, ok := seen[id]; ok {
+				continue
 			}
+			if strings.Contains(id, "#pre[") || strings.Contains(id, "#safety[") || strings.Contains(id, "#overflow[") || strings.Contains(id, "@") {
+				continue
+			}
+			viols = append(viols, viol{id: id, why: "claimed obligation is no longer generated (contract unbound or code path removed)"})
 		}
 		if len(claims.Claimed) == 0 && len(units) > 0 {
 			fmt.Fprintln(os.Stderr, "govc: no claims file for", *prop)
@@ -223,7 +247,7 @@ func cmdCheck(args []string) int {
 				if o.MustSat {
 					continue
 				}
-				if _, isKF := kfByObl[o.ID]; isKF {
+				if _, isKF := matchKF(kfByObl, o.ID); isKF {
 					continue
 				}
 				if o.Status == "unsat" && o.Secs <= 12 {
@@ -307,6 +331,21 @@ func cmdCheck(args []string) int {
 		return 1
 	}
 	return 0
+}
+
+// matchKF finds the known finding for an obligation id; a finding's obligation may contain one '**' wildcard.
+func matchKF(m map[string]KnownFinding, id string) (KnownFinding, bool) {
+	if k, ok := m[id]; ok {
+		return k, true
+	}
+	for pat, k := range m {
+		if i := strings.Index(pat, "**"); i >= 0 {
+			if strings.HasPrefix(id, pat[:i]) && strings.HasSuffix(id, pat[i+2:]) && len(id) >= len(pat)-2 {
+				return k, true
+			}
+		}
+	}
+	return KnownFinding{}, false
 }
 
 func round3(f float64) float64 {
